@@ -82,15 +82,17 @@ struct dent {
 #endif
 
 static struct dent g_ent;
-static bool g_ent_live;
+static bool g_ent_live, g_alloc_failed, g_add_refused;
 
 void *alloc_flex(size_t base_size, size_t item_size, size_t nmemb)
 {
 	VERIF_ASSERT(base_size == sizeof(sqfs_dir_entry_t) && item_size == 1 &&
 		     nmemb <= sizeof(g_ent.name) && !g_ent_live,
 		     "C16.env.alloc_pre");
-	if (verif_nd_bool("alloc_fail"))
+	if (verif_nd_bool("alloc_fail")) {
+		g_alloc_failed = true;
 		return NULL;
+	}
 	memset(&g_ent, 0, sizeof(g_ent));
 	g_ent_live = true;
 	return &g_ent;
@@ -138,6 +140,7 @@ tree_node_t *fstree_add_generic(fstree_t *fs, const sqfs_dir_entry_t *ent,
 	g_add_gid = ent->gid;
 	g_add_rdev = ent->rdev;
 	if (verif_nd_bool("add_fail")) {
+		g_add_refused = true;
 		errno = verif_nd_int("errno");
 		return NULL;
 	}
@@ -247,8 +250,9 @@ void harness(void)
 	if (ret != 0) {
 		/* only for reasons outside the format: allocation, or the
 		 * tree refusing the entry */
-		VERIF_ASSERT(g_err_msgs > 0, "C16.line.accepted");
-		VERIF_ASSERT(g_added == 1 || g_added == 0, "C16.line.accepted");
+		VERIF_ASSERT(g_alloc_failed || g_add_refused,
+			     "C16.line.accepted");
+		VERIF_ASSERT(g_err_msgs > 0, "C16.line.failure_reported");
 		return;
 	}
 	VERIF_ASSERT(g_added == 1, "C16.line.accepted");
